@@ -1362,6 +1362,7 @@ func main() {
 		nilSection()
 		directedSection()
 		optionalSection()
+		prefixFamilySection()
 	}
 	if all || sections["frozen"] {
 		frozenSection()
@@ -1384,5 +1385,129 @@ func main() {
 	sort.Strings(fk)
 	for _, k := range fk {
 		note("stat propfail-%s %d", k, failCount[k])
+	}
+}
+
+// prefixFamilySection: families of multimaps (and arrays) that share a prefix and differ in length
+// and in the values under the shared keys - the shape on which "compare the common prefix, then the
+// lengths" and "compare keys, lengths, then values" orderings disagree. All order laws are checked
+// on every pair and triple of a family, and every comparison is replayed on the model.
+func prefixFamilySection() {
+	names := make([]string, 0, len(types))
+	for n, t := range types {
+		if t.kind == kMap || t.kind == kArr {
+			names = append(names, n)
+		}
+	}
+	sort.Strings(names)
+	rounds := 6
+	if thorough {
+		rounds = 60
+	}
+	for _, name := range names {
+		t := types[name]
+		if !hasMethod(t, "EnsureLen") {
+			continue
+		}
+		for round := 0; round < rounds; round++ {
+			r := rng.New(rng.Seed()*7919 + uint64(round)*31 + hash(name))
+			cfg := &genCfg{fm: fPlain, maxDepth: 1, maxLen: 2}
+			// a base of 3 elements; family members: prefixes of length 1..3 whose elements are taken
+			// from two alternative fillings per index
+			const L = 3
+			alts := [2]reflect.Value{newObj(t), newObj(t)}
+			for k := 0; k < 2; k++ {
+				call(alts[k], "EnsureLen", reflect.ValueOf(L))
+				for i := 0; i < L; i++ {
+					if t.kind == kMap {
+						setMapKV(alts[k], t, i, r, cfg, 0)
+					} else if t.elem.prim() {
+						continue
+					} else {
+						fill(call(alts[k], "At", reflect.ValueOf(i))[0], t.elem, r, cfg, 1)
+					}
+				}
+			}
+			if t.kind == kMap && t.key.prim() {
+				// same key at index 0 in both alternatives (the shared prefix key)
+				k0 := call(alts[0], "Key", reflect.ValueOf(0))[0]
+				m := meth(alts[1], "SetKey")
+				m.Call([]reflect.Value{reflect.ValueOf(0), k0.Convert(m.Type().In(1))})
+			}
+			var objs []reflect.Value
+			var st []string
+			for ln := 1; ln <= L; ln++ {
+				for pick := 0; pick < 1<<uint(ln) && len(objs) < 10; pick++ {
+					o := newObj(t)
+					call(o, "EnsureLen", reflect.ValueOf(ln))
+					okBuild := true
+					for i := 0; i < ln; i++ {
+						src := alts[(pick>>uint(i))&1]
+						if t.kind == kMap {
+							if t.key.prim() {
+								m := meth(o, "SetKey")
+								m.Call([]reflect.Value{reflect.ValueOf(i), call(src, "Key", reflect.ValueOf(i))[0].Convert(m.Type().In(1))})
+							} else if res := copyFromObj(call(o, "Key", reflect.ValueOf(i))[0], call(src, "Key", reflect.ValueOf(i))[0]); res.panicked {
+								okBuild = false
+							}
+							if t.val.prim() {
+								m := meth(o, "SetValue")
+								m.Call([]reflect.Value{reflect.ValueOf(i), call(src, "Value", reflect.ValueOf(i))[0].Convert(m.Type().In(1))})
+							} else if res := copyFromObj(call(o, "Value", reflect.ValueOf(i))[0], call(src, "Value", reflect.ValueOf(i))[0]); res.panicked {
+								okBuild = false
+							}
+						} else if !t.elem.prim() {
+							if res := copyFromObj(call(o, "At", reflect.ValueOf(i))[0], call(src, "At", reflect.ValueOf(i))[0]); res.panicked {
+								okBuild = false
+							}
+						}
+					}
+					if okBuild {
+						objs = append(objs, o)
+						st = append(st, stateOf(o, t))
+					}
+				}
+			}
+			n := len(objs)
+			if n < 3 {
+				continue
+			}
+			note("case prefix-family/%s/%d", name, round)
+			note("nontrivial %x", hash("pf"+st[0]+st[n-1]))
+			stats["prefix-families"]++
+			c := make([][]int, n)
+			for i := range c {
+				c[i] = make([]int, n)
+				for j := range c[i] {
+					v, res := cmpObj(t, objs[i], objs[j])
+					if res.panicked {
+						propFail("panic-cmp-"+name, "Cmp%s panicked: %s", name, res.msg)
+					}
+					c[i][j] = v
+					emit("cmp "+st[i]+" "+st[j], fmt.Sprint(v))
+				}
+			}
+			sgn := func(x int) int {
+				switch {
+				case x < 0:
+					return -1
+				case x > 0:
+					return 1
+				}
+				return 0
+			}
+			for i := 0; i < n; i++ {
+				for j := 0; j < n; j++ {
+					if sgn(c[i][j]) != -sgn(c[j][i]) {
+						propFail("cmp-"+name+"-antisymmetry", "Cmp%s(a,b)=%d Cmp(b,a)=%d a=%s b=%s", name, c[i][j], c[j][i], st[i], st[j])
+					}
+					for k := 0; k < n; k++ {
+						if c[i][j] <= 0 && c[j][k] <= 0 && c[i][k] > 0 {
+							propFail("cmp-"+name+"-transitivity", "Cmp%s not transitive: cmp(a,b)=%d cmp(b,c)=%d cmp(a,c)=%d a=%s b=%s c=%s", name, c[i][j], c[j][k], c[i][k], st[i], st[j], st[k])
+						}
+					}
+				}
+			}
+		}
 	}
 }
